@@ -150,6 +150,11 @@ def frag_program(rng):
         cand = [j for j in range(nvars[0]) if kinds[j] != 'c']
         if cand and rng.chance(1, 2):
             j = rng.choice(cand)
+            c = rng.below(6)
+            if c == 0:
+                return "v%d%s" % (j, rng.choice(["++", "--"]))
+            if c == 1:
+                return "v%d %s %s" % (j, rng.choice(["+=", "-=", "*=", "/=", "+="]), iexpr(1) if kinds[j] != 's' or rng.chance(1, 2) else sexpr(1))
             e, t = expr(1)
             kinds[j] = '?' if kinds[j] != t else t     # assigned on one path only: not relied upon afterwards
             return "v%d = %s" % (j, e)
@@ -174,7 +179,7 @@ def frag_program(rng):
             body = block(depth + 1, True)
             free_counters.append(j)
             return ["v%d = 0" % j,
-                    "for v%d < %d { %s }" % (j, rng.below(4), "v%d = v%d + 1" % (j, j) + ("; " + body if body else ""))]
+                    "for v%d < %d { %s }" % (j, rng.below(4), rng.choice(["v%d = v%d + 1" % (j, j), "v%d++" % j, "v%d += 1" % j]) + ("; " + body if body else ""))]
         return [simple()]
 
     lines = []
